@@ -272,3 +272,8 @@ MUTANTS += [
 # SESSION7b additions to the claim (round 8, DESIGN 12.6)
 CLAIM['technique'] += '; no-forward-seek on the download path; case-insensitive matching of header names'
 CLAIM['text'] += ' C05-l: the download path stores every received byte. C05-m: no case-sensitive comparison of the response header with a literal.'
+
+
+# SESSION7c additions to the claim (round 9, DESIGN 12.7)
+CLAIM['technique'] += '; count-compare lint on the callers of multipart_extract'
+CLAIM['text'] += ' C05-n: the result of multipart_extract() (its own accounting) is tested against zero only.'
